@@ -456,8 +456,13 @@ func runC15History(t *testing.T, rec *Recorder, r *rand.Rand) {
 	rec.NextTrace()
 	ops := 3 + r.Intn(4)
 	first := true
+	lastInit := false
 	for o := 0; o < ops; o++ {
 		x := r.Intn(10)
+		if lastInit && r.Intn(2) == 0 {
+			x = 6 // `fan init` followed by `fan reset`: whatever init stored (for a fan without RPM sensor: the PWM map only) is gone
+		}
+		lastInit = !first && x >= 8
 		if first || x < 6 {
 			// start, run until every fan has regulated for a few cycles, stop
 			synctest.Test(t, func(t *testing.T) {
